@@ -383,15 +383,6 @@ Definition oseq (pws : list pwriter) (q : nat) : list msg :=
   match nth_error pws q with Some x => pw_seq x | None => [] end.
 
 Lemma astep_bwd : forall cfg m pws pws' q x', astep cfg m pws pws' -> nth_error pws' q = Some x' ->
-  (pw_ok x' /\ (all_open pws -> pw_open x' = true) /\
-   (forall x, nth_error pws q = Some x -> pw_tp x' = pw_tp x)) /\
-  ((nth_error pws q = Some x') \/
-   (pw_seq x' = oseq pws q ++ [m] /\ pw_tp x' = tp_of cfg m /\
-    forall q2 x2, nth_error pws' q2 = Some x2 -> q2 <> q -> nth_error pws q2 = Some x2)) \/ False.
-Proof.
-Abort.
-
-Lemma astep_bwd : forall cfg m pws pws' q x', astep cfg m pws pws' -> nth_error pws' q = Some x' ->
   nth_error pws q = Some x' \/
   (pw_ok x' /\ pw_open x' = true /\ pw_seq x' = oseq pws q ++ [m] /\ pw_tp x' = tp_of cfg m /\
    (forall x, nth_error pws q = Some x -> pw_tp x = tp_of cfg m) /\
@@ -993,3 +984,300 @@ Proof.
 Qed.
 
 End AssignFold.
+
+Definition Rseq (a b : pwriter) : Prop := pw_tp b = pw_tp a /\ pw_seq b = pw_seq a.
+
+Lemma lrel_Rseq_oseq : forall pws pws' q, lrel Rseq pws pws' -> oseq pws' q = oseq pws q.
+Proof.
+  intros pws pws' q L. unfold oseq. destruct (nth_error pws' q) as [x'|] eqn:E.
+  - destruct (lrel_bwd _ _ _ _ _ _ L E) as (x & Hx & _ & R). rewrite Hx. auto.
+  - destruct (nth_error pws q) as [x|] eqn:E0; auto.
+    destruct (lrel_fwd _ _ _ _ _ _ L E0) as (x' & Hx' & _). congruence.
+Qed.
+
+Lemma Inv2_same_seq : forall cfg s s', Inv2 cfg s -> s_calls s' = s_calls s ->
+  lrel Rseq (s_pws s) (s_pws s') -> Inv2 cfg s'.
+Proof.
+  intros cfg s s' [I1 I2 I3 I4 I5 I6 I7] Ec L.
+  assert (O : forall q, oseq (s_pws s') q = oseq (s_pws s) q) by (intros; apply lrel_Rseq_oseq; auto).
+  split; rewrite ?Ec; auto.
+  - intros q x Hx. rewrite O in Hx. eauto.
+  - intros q pw' x Hq Hx. destruct (lrel_bwd _ _ _ _ _ _ L Hq) as (pw & Hpw & T & S).
+    rewrite S in Hx. rewrite T. eapply I4; eauto.
+  - intros q. rewrite O. auto.
+  - intros g q m1 m2 B H1 H2. rewrite O in *. eapply I6; eauto.
+  - intros c cl m H1 H2 H3 H4. destruct (I7 _ _ _ H1 H2 H3 H4) as (q & pw & E & T & I).
+    destruct (lrel_fwd _ _ _ _ _ _ L E) as (pw' & E' & T' & S'). exists q, pw'. split; auto. split; congruence.
+Qed.
+
+Lemma lrel_Rloc_Rseq : forall pws pws', all_ok pws -> lrel Rloc pws pws' -> lrel Rseq pws pws'.
+Proof.
+  intros pws pws' Hok L. eapply lrel_imp; [|exact L]. intros q x x' Hx R. split.
+  - apply R. eapply Hok; eauto.
+  - eapply Rloc_seq; eauto.
+Qed.
+
+Lemma step_attempt : forall cfg s p r s', step cfg s (Attempt p r) = Some s' ->
+  s_calls s' = s_calls s /\ lrel Rloc (s_pws s) (s_pws s').
+Proof.
+  intros cfg s p r s' H. simpl in H. destruct (nth_error (s_pws s) p) as [pw|] eqn:E; [|discriminate].
+  destruct (pw_snd pw) as [[b n [| |e]]|] eqn:Es; inv H. simpl. split; auto.
+  eapply lrel_upd; eauto using Rloc_refl.
+  destruct pw; simpl in *; subst. unfold Rloc, pw_ok, pw_all, fs. simpl.
+  intros [Hk Hc]. repeat split; auto using incl_refl.
+Qed.
+
+Lemma Inv2_init : forall cfg, Inv2 cfg init.
+Proof.
+  intros cfg. split; simpl.
+  - constructor.
+  - intros c1 c2 cl1 cl2 _ H. destruct c1; discriminate.
+  - intros q x H. unfold oseq in H. destruct q; destruct H.
+  - intros q pw x H. destruct q; discriminate.
+  - intros q. unfold oseq. destruct q; constructor.
+  - intros g q m1 m2 _ H. unfold oseq in H. destruct q; destruct H.
+  - intros c cl m H. destruct c; discriminate.
+Qed.
+
+Lemma Inv2_step : forall cfg s l s', Inv1 s -> Inv2 cfg s -> step cfg s l = Some s' -> Inv2 cfg s'.
+Proof.
+  intros cfg s l s' J I H.
+  destruct (is_local l) eqn:Hl.
+  { destruct (step_local _ _ _ _ Hl H) as (Ec & El & Ej & Elog & LR & LO).
+    eapply Inv2_same_seq; eauto. apply lrel_Rloc_Rseq; auto. apply J. }
+  destruct l; try discriminate.
+  - (* Call *)
+    apply step_call in H. destruct H as (wg & ph & -> & Adm & Ph).
+    destruct (admissible_facts _ _ _ Adm) as (A1 & A2 & A3).
+    destruct I as [I1 I2 I3 I4 I5 I6 I7]. split; simpl; auto.
+    + unfold used_ids. rewrite flat_map_app. simpl. rewrite app_nil_r.
+      apply NoDup_app_intro; auto. intros z Hz Hz'. apply in_map_iff in Hz'. destruct Hz' as (m & <- & Hm).
+      eapply A3; eauto.
+    + intros c1 c2 cl1 cl2 L H1 H2 Eg.
+      destruct (Nat.lt_ge_cases c2 (length (s_calls s))) as [L2|L2].
+      * rewrite nth_error_app1 in H2 by lia. rewrite nth_error_app1 in H1 by lia. exact (I2 _ _ _ _ L H1 H2 Eg).
+      * rewrite nth_error_app2 in H2 by lia.
+        destruct (c2 - length (s_calls s)) as [|d] eqn:D; simpl in H2; [|destruct d; discriminate]. inv H2.
+        rewrite nth_error_app1 in H1 by lia. apply A1; [eapply nth_error_In; eauto|exact Eg].
+    + intros q x Hx. destruct (I3 _ _ Hx) as (c2 & cl2 & H2 & R). exists c2, cl2. split; auto.
+      rewrite nth_error_app1; auto. apply nth_error_Some. congruence.
+    + intros g0 q m1 m2 B H1 H2. unfold submitted in B. rewrite flat_map_app in B. simpl in B. rewrite app_nil_r in B.
+      assert (K : forall y, In y (if (g =? g0)%N && negb (rejected (mkCall g msgs [] ph)) then msgs else []) ->
+                            In y (oseq (s_pws s) q) -> False).
+      { intros y Hy Hy'. assert (In y msgs) by (destruct ((g =? g0)%N && negb (rejected (mkCall g msgs [] ph))); [auto|destruct Hy]).
+        destruct (I3 _ _ Hy') as (c2 & cl2 & E2 & In2 & _). eapply A3; eauto.
+        unfold used_ids. apply in_flat_map. exists cl2. split; [eapply nth_error_In; eauto|apply in_map; auto]. }
+      apply before_app_inv in B. destruct B as [B|[[_ B]|B]].
+      * eapply I6; eauto.
+      * exfalso. eapply K; eauto.
+      * exfalso. eapply K; eauto. eapply before_in_r; eauto.
+    + intros c cl m H1 H2 H3 H4.
+      destruct (Nat.lt_ge_cases c (length (s_calls s))) as [L2|L2].
+      * rewrite nth_error_app1 in H1 by lia. eapply I7; eauto.
+      * rewrite nth_error_app2 in H1 by lia.
+        destruct (c - length (s_calls s)) as [|d] eqn:D; simpl in H1; [|destruct d; discriminate]. inv H1.
+        simpl in *. destruct Ph as [ -> | [ Ph | -> ] ]; [congruence|congruence|destruct H4].
+  - (* Assign *)
+    simpl in H. destruct (nth_error (s_calls s) c) as [cl|] eqn:Ec; [|discriminate].
+    destruct (c_ph cl) eqn:Ep; try discriminate.
+    destruct (assign_all cfg (s_pws s) (s_wg s) (c_msgs cl)) as [[pws wg] refs] eqn:EA. inv H.
+    destruct I as [I1 I2 I3 I4 I5 I6 I7].
+    assert (P : Q cfg (s_calls s) c (c_msgs cl) pws /\ fwd Rasg (s_pws s) pws).
+    { eapply (assign_all_ind cfg (fun ms1 pws => Q cfg (s_calls s) c ms1 pws /\ fwd Rasg (s_pws s) pws)); [| |exact EA].
+      - intros ms1 m ms2 pws1 wg1 refs1 pws' wg' refs' E (A1 & A2) E1.
+        apply assign_one_spec in E1; [|apply A1]. split.
+        + eapply Q_step; eauto.
+        + intros q x Hx. destruct (A2 _ _ Hx) as (x1 & Hx1 & R1).
+          destruct (astep_fwd _ _ _ _ E1 _ _ Hx1) as (x2 & Hx2 & R2). exists x2. split; auto.
+          eapply Rasg_trans; eauto.
+      - split; [|intros q x Hx; exists x; split; auto; apply Rasg_refl].
+        split; [apply J|]. split; [|split; [|split; [|split]]]; auto.
+        + intros q x Hx. left. destruct (I3 _ _ Hx) as (c2 & cl2 & E2 & In2 & Ph2 & R2).
+          exists c2, cl2. repeat split; auto. intros ->. congruence.
+        + intros m []. }
+    destruct P as ((P1 & P2 & P3 & P4 & P5 & P6) & PF).
+    set (cl' := mkCall (c_g cl) (c_msgs cl) refs CWaiting).
+    assert (Rj : rejected cl = false) by (unfold rejected; rewrite Ep; reflexivity).
+    destruct (calls_upd (s_calls s) c cl cl' Ec eq_refl eq_refl) as (U1 & U2 & U3).
+    { unfold rejected; simpl. rewrite Ep. reflexivity. }
+    { unfold returned. rewrite Ep. discriminate. }
+    assert (Ec' : nth_error (upd (s_calls s) c cl') c = Some cl').
+    { apply nth_error_upd_eq. apply nth_error_Some. congruence. }
+    split; simpl; fold cl'; auto.
+    + rewrite U1. auto.
+    + intros q x Hx. destruct (P2 _ _ Hx) as [(c2 & cl2 & N2 & E2 & In2 & Ph2 & R2)|Hin].
+      * exists c2, cl2. rewrite nth_error_upd_neq by auto. auto.
+      * exists c, cl'. split; auto. split; auto. split; [discriminate|reflexivity].
+    + intros g q m1 m2 B. rewrite U2 in B. eapply P5; eauto.
+    + intros c0 cl0 m H1 H2 H3 H4. apply nth_error_upd in H1. destruct H1 as [(-> & -> & _)|[N0 H1]].
+      * apply P6. exact H4.
+      * eapply covered_fwd; [exact PF|]. eapply I7; eauto.
+  - (* Attempt *)
+    destruct (step_attempt _ _ _ _ _ H) as [Ec LR].
+    eapply Inv2_same_seq; eauto. apply lrel_Rloc_Rseq; auto. apply J.
+  - (* Return *)
+    eapply step_ret in H; [|left; reflexivity]. destruct H as (cl & r & Ec & Ep & -> & Hr).
+    destruct I as [I1 I2 I3 I4 I5 I6 I7].
+    set (cl' := mkCall (c_g cl) (c_msgs cl) (c_refs cl) (CReturned r)).
+    assert (Rj' : rejected cl' = false) by (destruct Hr as [ -> | [ [we -> ] | -> ] ]; reflexivity).
+    assert (Rj : rejected cl = false) by (unfold rejected; rewrite Ep; reflexivity).
+    destruct (calls_upd (s_calls s) c cl cl' Ec eq_refl eq_refl) as (U1 & U2 & U3); [congruence|reflexivity|].
+    split; simpl; fold cl'; auto.
+    + rewrite U1. auto.
+    + intros q x Hx. destruct (I3 _ _ Hx) as (c2 & cl2 & E2 & In2 & Ph2 & R2).
+      destruct (Nat.eq_dec c c2) as [<-|N].
+      * exists c, cl'. split; [apply nth_error_upd_eq; apply nth_error_Some; congruence|].
+        assert (cl2 = cl) by congruence. subst. split; auto. split; [discriminate|auto].
+      * exists c2, cl2. rewrite nth_error_upd_neq by auto. auto.
+    + intros g q m1 m2 B. rewrite U2 in B. eapply I6; eauto.
+    + intros c0 cl0 m H1 H2 H3 H4. apply nth_error_upd in H1. destruct H1 as [(-> & -> & _)|[N0 H1]].
+      * eapply (I7 c0 cl); eauto. congruence.
+      * eapply I7; eauto.
+  - (* CtxDone *)
+    eapply step_ret in H; [|right; reflexivity]. destruct H as (cl & r & Ec & Ep & -> & Hr).
+    destruct I as [I1 I2 I3 I4 I5 I6 I7].
+    set (cl' := mkCall (c_g cl) (c_msgs cl) (c_refs cl) (CReturned r)).
+    assert (Rj' : rejected cl' = false) by (destruct Hr as [ -> | [ [we -> ] | -> ] ]; reflexivity).
+    assert (Rj : rejected cl = false) by (unfold rejected; rewrite Ep; reflexivity).
+    destruct (calls_upd (s_calls s) c cl cl' Ec eq_refl eq_refl) as (U1 & U2 & U3); [congruence|reflexivity|].
+    split; simpl; fold cl'; auto.
+    + rewrite U1. auto.
+    + intros q x Hx. destruct (I3 _ _ Hx) as (c2 & cl2 & E2 & In2 & Ph2 & R2).
+      destruct (Nat.eq_dec c c2) as [<-|N].
+      * exists c, cl'. split; [apply nth_error_upd_eq; apply nth_error_Some; congruence|].
+        assert (cl2 = cl) by congruence. subst. split; auto. split; [discriminate|auto].
+      * exists c2, cl2. rewrite nth_error_upd_neq by auto. auto.
+    + intros g q m1 m2 B. rewrite U2 in B. eapply I6; eauto.
+    + intros c0 cl0 m H1 H2 H3 H4. apply nth_error_upd in H1. destruct H1 as [(-> & -> & _)|[N0 H1]].
+      * eapply (I7 c0 cl); eauto. congruence.
+      * eapply I7; eauto.
+Qed.
+
+Lemma Inv12_runs : forall cfg ls s, runs cfg ls s -> Inv1 s /\ Inv2 cfg s.
+Proof.
+  intros cfg ls s H. eapply (runs_inv cfg (fun s => Inv1 s /\ Inv2 cfg s)); eauto.
+  - split; [apply Inv1_init|apply Inv2_init].
+  - intros s0 l s1 [A B] St. split; [eapply Inv1_step; eauto|eapply Inv2_step; eauto].
+Qed.
+
+Lemma C07_batch_internal_order_proof : stmt_C07_batch_internal_order.
+Proof.
+  intros cfg ls s Hr g tp m1 m2 a (l1 & l2 & l3 & Hsub) Ha i j Hi Hj.
+  destruct (Inv12_runs _ _ _ Hr) as [J I].
+  assert (B : before (submitted (s_calls s) g) m1 m2).
+  { eapply before_filter. rewrite Hsub. apply before_split. }
+  destruct (i1_jr _ J a Ha) as (pw & b & E & T & Hb & Hk & Hm).
+  assert (Hall : In b (pw_all pw)) by (apply fs_incl_all; auto).
+  assert (O : oseq (s_pws s) (a_pw a) = pw_seq pw) by (apply oseq_some; auto).
+  assert (In1 : In m1 (pw_seq pw)).
+  { unfold pw_seq. apply in_flat_map. exists b. split; auto. rewrite Hm. eapply nth_error_In; eauto. }
+  assert (In2 : In m2 (pw_seq pw)).
+  { unfold pw_seq. apply in_flat_map. exists b. split; auto. rewrite Hm. eapply nth_error_In; eauto. }
+  assert (BS : before (pw_seq pw) m1 m2).
+  { rewrite <- O. eapply (i2_order _ _ I); eauto; rewrite O; auto. }
+  assert (ND : NoDup (pw_seq pw)).
+  { eapply NoDup_map_inv. rewrite <- O. apply (i2_nodup _ _ I). }
+  destruct (Nat.lt_ge_cases i j) as [L|L]; auto. exfalso.
+  destruct (Nat.eq_dec i j) as [->|N].
+  - assert (m1 = m2) by congruence. subst. eapply NoDup_before_irrefl; eauto.
+  - eapply (NoDup_before_asym (pw_seq pw) m1 m2); eauto. unfold pw_seq.
+    eapply before_flat_map_in; eauto. rewrite Hm. exists j, i. split; [lia|auto].
+Qed.
+
+(* ------------------------------------------------------------------ the log *)
+Definition jlog (j : list attempt) : list (tpart * msg) :=
+  flat_map (fun a => if a_applied a then map (pair (a_tp a)) (a_msgs a) else []) j.
+
+Lemma log_inv_runs : forall cfg ls s, runs cfg ls s -> s_log s = jlog (s_journal s).
+Proof.
+  intros cfg ls s H. eapply (runs_inv cfg (fun s => s_log s = jlog (s_journal s))); eauto.
+  intros s0 l s1 I St. destruct (is_local l) eqn:Hl.
+  { destruct (step_local _ _ _ _ Hl St) as (_ & _ & Ej & Elog & _). congruence. }
+  destruct l; try discriminate.
+  - apply step_call in St. destruct St as (wg & ph & -> & _). exact I.
+  - simpl in St. destruct (nth_error (s_calls s0) c) as [cl|]; [|discriminate].
+    destruct (c_ph cl); try discriminate.
+    destruct (assign_all cfg (s_pws s0) (s_wg s0) (c_msgs cl)) as [[pws wg] refs]. inv St. exact I.
+  - simpl in St. destruct (nth_error (s_pws s0) p) as [pw|]; [|discriminate].
+    destruct (pw_snd pw) as [[b n [| |e]]|]; inv St. simpl. rewrite I. unfold jlog.
+    rewrite flat_map_app. simpl. rewrite app_nil_r. reflexivity.
+  - eapply step_ret in St; [|left; reflexivity]. destruct St as (cl & r & _ & _ & -> & _). exact I.
+  - eapply step_ret in St; [|right; reflexivity]. destruct St as (cl & r & _ & _ & -> & _). exact I.
+Qed.
+
+Definition amsgs (tp : tpart) (a : attempt) : list msg :=
+  if a_applied a && tp_eqb (a_tp a) tp then a_msgs a else [].
+
+Lemma filter_pair : forall tp t (l : list msg),
+  map snd (filter (fun e : tpart * msg => tp_eqb (fst e) tp) (map (pair t) l)) = if tp_eqb t tp then l else [].
+Proof.
+  intros tp t l. induction l as [|x l IH]; simpl; [destruct (tp_eqb t tp); reflexivity|].
+  destruct (tp_eqb t tp) eqn:E; simpl; [f_equal|]; exact IH.
+Qed.
+
+Lemma log_of_jlog : forall tp j,
+  map snd (filter (fun e : tpart * msg => tp_eqb (fst e) tp) (jlog j)) = flat_map (amsgs tp) j.
+Proof.
+  intros tp j. induction j as [|a j IH]; simpl; [reflexivity|].
+  rewrite filter_app, map_app, IH. f_equal. unfold amsgs. destruct (a_applied a); simpl; [apply filter_pair|reflexivity].
+Qed.
+
+Lemma flat_map_order : forall A B (F : A -> list B) l i j x y,
+  nth_error (flat_map F l) i = Some x -> nth_error (flat_map F l) j = Some y ->
+  (forall p p' a b, nth_error l p = Some a -> nth_error l p' = Some b -> In x (F a) -> In y (F b) -> p < p') ->
+  i < j.
+Proof.
+  intros A B F l i j x y Hi Hj H. destruct (Nat.lt_ge_cases i j) as [L|L]; auto. exfalso.
+  destruct (Nat.eq_dec i j) as [->|N].
+  - assert (x = y) by congruence. subst y. apply nth_error_In in Hi. apply in_flat_map in Hi.
+    destruct Hi as (a & Ha & Hx). apply In_nth_error in Ha. destruct Ha as [p Hp].
+    specialize (H p p a a Hp Hp Hx Hx). lia.
+  - assert (Bf : before (flat_map F l) y x) by (exists j, i; split; [lia|auto]).
+    apply before_flat_map_inv in Bf. destruct Bf as (p' & p & b & a & Hp' & Hp & Hy & Hx & O).
+    specialize (H p p' a b Hp Hp' Hx Hy). lia.
+Qed.
+
+Lemma C07_order_proof : stmt_C07_order.
+Proof.
+  intros cfg ls s _ Hr HL g tp m1 m2 (l1 & l2 & l3 & Hsub) Hno i j Hi Hj.
+  destruct (Inv12_runs _ _ _ Hr) as [J I].
+  assert (B : before (submitted (s_calls s) g) m1 m2).
+  { eapply before_filter. rewrite Hsub. apply before_split. }
+  unfold log_of in Hi, Hj. rewrite (log_inv_runs _ _ _ Hr), log_of_jlog in Hi, Hj.
+  eapply flat_map_order; eauto.
+  intros p p' a b Hp Hp' Ha Hb. unfold amsgs in Ha, Hb.
+  destruct (a_applied a && tp_eqb (a_tp a) tp) eqn:Ea; [|destruct Ha].
+  destruct (a_applied b && tp_eqb (a_tp b) tp) eqn:Eb; [|destruct Hb].
+  apply andb_true_iff in Ea, Eb. destruct Ea as [_ Ea], Eb as [_ Eb]. apply tp_eqb_eq in Ea, Eb.
+  destruct (C07_retries_contiguous_proof cfg ls s Hr p p' a b Hp Hp') as (R1 & _ & R3).
+  assert (Epw : a_pw a = a_pw b) by (apply R3; congruence).
+  apply R1; auto.
+  destruct (i1_jr _ J a (nth_error_In _ _ Hp)) as (pwa & ba & A1 & A2 & A3 & A4 & A5).
+  destruct (i1_jr _ J b (nth_error_In _ _ Hp')) as (pwb & bb & B1 & B2 & B3 & B4 & B5).
+  rewrite Epw in A1. assert (pwa = pwb) by congruence. subst pwb.
+  destruct (i1_ok _ J _ _ A1) as [Hk _].
+  apply fs_incl_all in A3, B3.
+  assert (O : oseq (s_pws s) (a_pw b) = pw_seq pwa) by (apply oseq_some; auto).
+  assert (In1 : In m1 (pw_seq pwa)).
+  { unfold pw_seq. apply in_flat_map. exists ba. split; auto. rewrite A5. auto. }
+  assert (In2 : In m2 (pw_seq pwa)).
+  { unfold pw_seq. apply in_flat_map. exists bb. split; auto. rewrite B5. auto. }
+  assert (BS : before (pw_seq pwa) m1 m2).
+  { rewrite <- O. eapply (i2_order _ _ I); eauto; rewrite O; auto. }
+  assert (ND : NoDup (pw_seq pwa)).
+  { eapply NoDup_map_inv. rewrite <- O. apply (i2_nodup _ _ I). }
+  destruct (Nat.lt_ge_cases (a_k a) (a_k b)) as [L|L]; auto. exfalso.
+  destruct (Nat.eq_dec (a_k a) (a_k b)) as [Ek|Nk].
+  - assert (ba = bb).
+    { eapply (NoDup_map_inj_in _ _ b_k (pw_all pwa)); auto; [rewrite Hk; apply seq_NoDup|congruence]. }
+    subst bb. apply (Hno a (nth_error_In _ _ Hp)). split; auto. rewrite <- A5, B5. auto.
+  - apply In_nth_error in A3, B3. destruct A3 as [ia Hia], B3 as [ib Hib].
+    assert (b_k ba = ia) by (eapply seq_idx; eauto).
+    assert (b_k bb = ib) by (eapply seq_idx; eauto).
+    eapply (NoDup_before_asym (pw_seq pwa) m1 m2); eauto. unfold pw_seq.
+    eapply (before_flat_map_lt _ _ b_msgs (pw_all pwa) ib ia bb ba); eauto; [lia|rewrite B5; auto|rewrite A5; auto].
+Qed.
+
+Print Assumptions C07_retries_contiguous_proof.
+Print Assumptions C07_batch_internal_order_proof.
+Print Assumptions C07_order_proof.
